@@ -165,12 +165,16 @@ func (e *progEnv) build(name string, op []string) bigslice.Slice {
 		return bigslice.Map(e.ref(op[1]), mapFn(op[2]), bigslice.Procs(atoi(op[3])))
 	case "mapx":
 		return bigslice.Map(e.ref(op[1]), mapFn(op[2]), bigslice.Exclusive)
-	case "count":
+	case "count", "countm":
 		c := progCounters[atoi(op[2])]
+		var opts []bigslice.Pragma
+		if op[0] == "countm" {
+			opts = append(opts, bigslice.ExperimentalMaterialize)
+		}
 		return bigslice.Map(e.ref(op[1]), func(ctx context.Context, k, v int64) (int64, int64) {
 			c.Incr(metrics.ContextScope(ctx), 1)
 			return k, v
-		})
+		}, opts...)
 	case "filter":
 		return bigslice.Filter(e.ref(op[1]), predFn(op[2]))
 	case "flatmap":
